@@ -1310,6 +1310,23 @@ pub fn parse(lex_tokens: &Vec<LexerToken>) -> Result<ParseResult, CompilerError>
     Ok(ParseResult { root, nodes })
 }
 
+/// Verification hooks (compiled only with `--cfg garnish_verif`): read-only views of the parser's private tables.
+#[cfg(garnish_verif)]
+pub fn verif_get_definition(token_type: TokenType) -> (Definition, SecondaryDefinition) {
+    get_definition(token_type)
+}
+
+#[cfg(garnish_verif)]
+pub fn verif_priority_map() -> HashMap<Definition, usize> {
+    make_priority_map()
+}
+
+/// `true` when `check_composition` rejects `current` directly after `previous`
+#[cfg(garnish_verif)]
+pub fn verif_composition_rejected(previous: SecondaryDefinition, current: SecondaryDefinition, check_for_list: bool) -> bool {
+    check_composition(previous, current, check_for_list, &LexerToken::new(String::new(), TokenType::Unknown, 0, 0)).is_err()
+}
+
 #[cfg(test)]
 mod composition_errors {
     use crate::lex::*;
